@@ -69,7 +69,7 @@ func genType(r *RNG, depth int) *gty {
 		t := &gty{Kind: "struct"}
 		for i := 0; i < n; i++ {
 			name := fmt.Sprintf("f%d", i)
-			if r.Chance(8) {
+			if r.Chance(15) {
 				name = "_"
 			}
 			ft := genType(r, depth-1)
@@ -342,6 +342,12 @@ func c07(c *Ctx) {
 			{{{"p", &gty{Kind: "named", Elem: bt("complex128")}}, {"q", &gty{Kind: "named", Elem: bt("complex64")}}}, {{"r", &gty{Kind: "named", Elem: bt("string")}}}},
 			{{{"b", bt("uint8")}, {"s", &gty{Kind: "named", Elem: &gty{Kind: "struct", Fields: []gfield{{"c", &gty{Kind: "named", Elem: bt("complex128")}}, {"t", &gty{Kind: "struct"}}}}}}}, {{"", &gty{Kind: "struct"}}}},
 		}
+		arr := func(n int64, e *gty) *gty { return &gty{Kind: "arr", N: n, Elem: e} }
+		corpus = append(corpus,
+			[2][]pv{{{"p", &gty{Kind: "struct", Fields: []gfield{{"Head", bt("uint32")}, {"_", arr(60, bt("uint8"))}, {"Tail", bt("uint64")}, {"_", arr(7, bt("uint8"))}, {"Flag", bt("uint8")}}}}}, {{"r", bt("uint64")}}},
+			[2][]pv{{{"a", bt("uint8")}, {"q", &gty{Kind: "struct", Fields: []gfield{{"_", bt("uint64")}, {"X", bt("uint16")}, {"_", &gty{Kind: "struct"}}, {"Y", bt("uint32")}}}}}, nil},
+			[2][]pv{{{"v", arr(2, &gty{Kind: "struct", Fields: []gfield{{"_", bt("uint8")}, {"W", bt("uint64")}}})}}, {{"", bt("bool")}}},
+		)
 		if j < len(corpus) {
 			ps, rs = corpus[j][0], corpus[j][1]
 		}
